@@ -138,6 +138,9 @@ def text_corpus(ctx, n):
     out += ['SELECT s FROM #g WHERE s IN lower(%s)' % ss, 'SELECT s FROM #g WHERE s IN upper((%s))' % ss]
     out += ['@ledger ' + t for t in ('BALANCES WHERE number IN -(SELECT number)', 'JOURNAL "Cash" FROM year IN -(SELECT year(date))',
                                      'SELECT account WHERE number IN (number + (SELECT number))', 'PRINT FROM year IN -(SELECT year(date))')]
+    out += ['SELECT * FROM (SELECT k, s, sum(v) AS t FROM #g GROUP BY 1, 2 PIVOT BY 1, 2)', 'SELECT t FROM (SELECT k, s, sum(v) AS t FROM #g GROUP BY 1, 2 PIVOT BY k, s)',
+            'SELECT k FROM #g WHERE k IN (SELECT k, s, sum(v) FROM #g GROUP BY 1, 2 PIVOT BY 1, 2)',
+            'SELECT k FROM #g WHERE k NOT IN (SELECT k, s, count(*) FROM #g GROUP BY k, s PIVOT BY k, s)']
     out += ['@ledger ' + t for t in LEDGER_TEXTS]
     while len(out) < n:
         fam = rng.choice(['plain', 'order', 'group', 'pivot'])
